@@ -26,6 +26,23 @@ async fn main() {
         }
     }));
     let shell = brush_core::Shell::builder().build().await.expect("shell");
+    // watchdog: an input line that keeps the process busy for more than LINEDRV_LINE_TIMEOUT seconds (default 15) ends the
+    // process (exit 3); the line has no answer, so the driver reports it as the culprit and goes on with the rest
+    let started = std::sync::Arc::new(std::sync::atomic::AtomicU64::new(0));
+    {
+        let started = started.clone();
+        let limit: u64 = std::env::var("LINEDRV_LINE_TIMEOUT").ok().and_then(|s| s.parse().ok()).unwrap_or(15);
+        let t0 = std::time::Instant::now();
+        std::thread::spawn(move || loop {
+            std::thread::sleep(std::time::Duration::from_millis(250));
+            let s = started.load(std::sync::atomic::Ordering::Relaxed);
+            if s != 0 && t0.elapsed().as_millis() as u64 > s + limit * 1000 {
+                eprintln!("WATCHDOG line exceeded {limit}s");
+                std::process::exit(3);
+            }
+        });
+    }
+    let t0 = std::time::Instant::now();
     let stdin = std::io::stdin();
     let mut out = std::io::BufWriter::new(std::io::stdout().lock());
     for l in stdin.lock().lines() {
@@ -33,6 +50,7 @@ async fn main() {
         if l.trim().is_empty() {
             continue;
         }
+        started.store((t0.elapsed().as_millis() as u64).max(1), std::sync::atomic::Ordering::Relaxed);
         let case: Value = serde_json::from_str(&l).expect("json");
         let id = case["id"].clone();
         let line = case["line"].as_str().unwrap_or("").to_owned();
@@ -97,6 +115,7 @@ async fn main() {
         }
         // flush per input line: when the process dies or hangs, the first unanswered line is the culprit
         let _ = out.flush();
+        started.store(0, std::sync::atomic::Ordering::Relaxed);
     }
     let _ = out.flush();
 }
